@@ -608,6 +608,7 @@ func extractC19() *lean {
 	l.def("defaultBitstringLengthInBytes", "Nat", v, v)
 	c19DidWeb(l, get("vdr/didweb/util.go"), get("vdr/didweb/web.go"))
 	c19DocUnmarshals(l)
+	c19JsonldRecover(l)
 	return l
 }
 
@@ -798,4 +799,102 @@ func c19DocUnmarshals(l *lean) {
 	}
 	sort.Strings(out)
 	l.def("didDocUnmarshals", "List String", leanStrList(out), out)
+}
+
+// c19JsonldRecover: every function of package jsonld (non-test files) that runs the third-party JSON-LD processor
+// (`ld.NewJsonLdProcessor()`), with the FORM of its deferred calls, and every function of the package whose own frame calls recover().
+// Go's recover() only stops a panic when it is called directly by the deferred function: the model (NutsModel/C19/JsonLd.lean) derives
+// from these rows whether the guard works. Row: file:func | one entry per defer statement:
+//   ("ident", [name])              defer <name>(...)
+//   ("closure:self", [])           defer func(){ ... recover() ... }()   (recover() in the closure's own frame)
+//   ("closure:calls", [a, b])      defer func(){ a(...); b(...) }()      (functions the closure calls in its own frame)
+//   ("other", [expr])
+func c19JsonldRecover(l *lean) {
+	dir := filepath.Join(repo, "jsonld")
+	ents, err := os.ReadDir(dir)
+	must(err)
+	// calls made in the frame of `body` itself (nested function literals are other frames)
+	ownCalls := func(body ast.Node) []string {
+		var out []string
+		ast.Inspect(body, func(n ast.Node) bool {
+			if _, ok := n.(*ast.FuncLit); ok && n != body {
+				return false
+			}
+			if ce, ok := n.(*ast.CallExpr); ok {
+				if _, isLit := ce.Fun.(*ast.FuncLit); !isLit {
+					out = append(out, c19Expr(ce.Fun))
+				}
+			}
+			return true
+		})
+		return out
+	}
+	var rows, recoverers []string
+	rawRows := map[string][]string{}
+	for _, e := range ents {
+		if e.IsDir() || !strings.HasSuffix(e.Name(), ".go") || strings.HasSuffix(e.Name(), "_test.go") {
+			continue
+		}
+		rel := "jsonld/" + e.Name()
+		_, f := parseFile(rel)
+		for _, d := range f.Decls {
+			fd, ok := d.(*ast.FuncDecl)
+			if !ok || fd.Body == nil {
+				continue
+			}
+			name := fd.Name.Name
+			if r := recvName(fd); r != "" {
+				name = r + "." + name
+			}
+			for _, c := range ownCalls(fd.Body) {
+				if c == "recover" {
+					recoverers = append(recoverers, name)
+					break
+				}
+			}
+			runsProcessor := false
+			ast.Inspect(fd.Body, func(n ast.Node) bool {
+				if ce, ok := n.(*ast.CallExpr); ok && c19Expr(ce.Fun) == "ld.NewJsonLdProcessor" {
+					runsProcessor = true
+				}
+				return true
+			})
+			if !runsProcessor {
+				continue
+			}
+			var forms []string
+			ast.Inspect(fd.Body, func(n ast.Node) bool {
+				ds, ok := n.(*ast.DeferStmt)
+				if !ok {
+					return true
+				}
+				switch fun := ds.Call.Fun.(type) {
+				case *ast.Ident:
+					forms = append(forms, fmt.Sprintf("(%q, [%q])", "ident", fun.Name))
+				case *ast.FuncLit:
+					calls := ownCalls(fun.Body)
+					self := false
+					for _, c := range calls {
+						if c == "recover" {
+							self = true
+						}
+					}
+					if self {
+						forms = append(forms, fmt.Sprintf("(%q, [])", "closure:self"))
+					} else {
+						forms = append(forms, fmt.Sprintf("(%q, %s)", "closure:calls", leanStrList(calls)))
+					}
+				default:
+					forms = append(forms, fmt.Sprintf("(%q, [%q])", "other", c19Expr(ds.Call.Fun)))
+				}
+				return true
+			})
+			rows = append(rows, fmt.Sprintf("(%q, [%s])", rel+":"+name, strings.Join(forms, ", ")))
+			rawRows[rel+":"+name] = forms
+		}
+	}
+	sort.Strings(rows)
+	sort.Strings(recoverers)
+	l.def("jsonldProcessorCallers", "List (String × List (String × List String))", "["+strings.Join(rows, ",\n  ")+"]", rawRows)
+	l.def("jsonldRecoverers", "List String", leanStrList(recoverers), recoverers)
 }
